@@ -17,7 +17,10 @@ EXPLANATION = ("CALLGRAPH who-may-write over the whole program: mapTx gains entr
                "removes (recursively) every disconnected transaction that is coinbase, not to be re-added or not re-accepted, then UpdateTransactionsFromBlock, then "
                "removeForReorg with a filter that keeps an entry only if CheckFinalTxAtTip, valid-or-recomputed lock points with CheckSequenceLocksAtTip, and "
                "coinbase maturity of every non-mempool input hold; removeForReorg applies the filter to every entry and removes the failing ones with all "
-               "descendants; then LimitMempoolSize.")
+               "descendants; then LimitMempoolSize. REPLACEMENT CONSISTENCY: every EntriesAndTxidsDisjoint test in the acceptance code compares the workspace's conflict "
+               "set with the changeset's CalculateMemPoolAncestors(<this transaction's handle>) (all in-mempool ancestors, through single-definition locals), is "
+               "reached whenever the conflict set is non-empty and under no other condition, a hit sets Invalid(TX_CONSENSUS, bad-txns-spends-conflicting-tx) and "
+               "returns a failure, and the commit is only past it: a replacement can never evict something it (transitively) spends.")
 ASSUMPTIONS = ["the acceptance checks of MemPoolAccept establish validity of what they commit (C26-C29 and the consensus properties)",
                "TxGraph::GetDescendantsUnion returns the given entries and all their descendants",
                "UpdateTransactionsFromBlock (degraded by a front-end limitation: one range-adaptor statement is dropped) is not inspected; only its call order is"]
@@ -43,6 +46,7 @@ def check(ctx):
     _apply(ctx, P)
     _block(ctx, P)
     _reorg(ctx, P)
+    _spends_conflicting(ctx, P)
 
 
 def _who(ctx, cg):
@@ -302,3 +306,63 @@ def _reorg(ctx, P):
         loop_range_key(ru[0].loops[-1], rsub) == "each(all_to_remove)" and loop_is_total(ru[0].loops[-1]) and not in_loop_guards(ru[0], ru[0].loops[-1])
     ctx.ob("removeForReorg/descendants", "PROVENANCE", "the rejected entries are removed together with all their descendants (GetDescendantsUnion, complete loop)", bool(ok),
            ru[0].where if ru else r.where, {"all_to_remove": un})
+
+
+# ------------------------------------------------------------------------------------------ a replacement never spends what it evicts
+
+def _spends_conflicting(ctx, P):
+    fns = []
+    for q, fl in P.funcs.items():
+        for g in fl:
+            if g.body is not None and g.file.endswith("validation.cpp") and any(is_call_to("EntriesAndTxidsDisjoint", x) for _, e in all_exprs(g.body) for x in subexprs(e)):
+                fns.append(g)
+    ctx.floor("acceptance functions testing conflicts against ancestors", len(fns), 1)
+    for g0 in fns:
+        ctx.used(g0)
+        g = inline_condvars(g0, inits=True)
+        sub = naming(g, P)
+        short = g.q.rsplit("::", 1)[-1]
+        for s in uniq_sites(sites(g, call_to("EntriesAndTxidsDisjoint"), P)):
+            a = call_args(s.expr)
+            oid = "%s/spends-conflicting@L%s" % (short, s.line)
+            # first argument: all in-mempool ancestors of the staged transaction
+            src = strip_wrappers(a[0]) if a else None
+            seen = set()
+            while is_expr(src) and src[0] == "local" and src[1] not in seen:
+                seen.add(src[1])
+                vals = local_values(g, src[1])
+                src = strip_wrappers(vals[0][1]) if len(vals) == 1 and is_expr(vals[0][1]) else None
+            ws = None
+            ok = is_expr(src) and is_call_to(MP + "ChangeSet::CalculateMemPoolAncestors", src) and show(call_obj(src)) == "m_subpackage.m_changeset" and len(call_args(src)) == 1
+            if ok:
+                m = re.fullmatch(r"(.+)\.m_tx_handle", xkey(call_args(src)[0], site_subst(sub, s)))
+                ok, ws = bool(m), (m.group(1) if m else None)
+            ctx.ob(oid + "/ancestors", "PROVENANCE", "the set tested for intersection with the conflicts is the changeset's CalculateMemPoolAncestors(<workspace>.m_tx_handle): "
+                   "every in-mempool ancestor of the new transaction, not just its parents", bool(ok), s.where, {"source": show(src) if is_expr(src) else None})
+            if not ok:
+                continue
+            ok2 = len(a) >= 2 and xkey(a[1], site_subst(sub, s)) == ws + ".m_conflicts"
+            ctx.ob(oid + "/conflicts", "PROVENANCE", "it is compared with the same workspace's conflict set (m_conflicts, which includes an evicted sibling)", ok2, s.where,
+                   {"arg": xkey(a[1], site_subst(sub, s)) if len(a) >= 2 else None})
+            own = F.mk_and([x.formula(site_subst(sub, s)) for x in s.guards if x.kind in ("if", "sc", "case", "loop")])
+            okg = F.equivalent(own, F.mk_not(F.atom(ws + ".m_conflicts.empty()")))
+            ctx.ob(oid + "/always-when-conflicts", "LADDER", "the test is made whenever the conflict set is non-empty (no other condition can skip it)", okg, s.where, {"guard": F.fshow(own)})
+        # a hit is a TX_CONSENSUS failure that leaves the function
+        hits = [st for st in stmts(g.body) if st.get("k") == "if" and any(is_call_to("EntriesAndTxidsDisjoint", x) for x in subexprs(st.get("c")))]
+        ctx.floor("%s: branches on the disjointness test" % short, len(hits), 1)
+        for st in hits:
+            c = F.to_formula(st["c"], sub)
+            pos = len(F.atoms(c)) == 1 and F.equivalent(c, F.atom(F.atoms(c)[0]))       # `if (err)`: the then-branch is the hit
+            branch = st.get("t") if pos else st.get("e")
+            inv = [invalid_call(x) for s2, e in all_exprs(branch) for x in subexprs(e) if invalid_call(x)] if isinstance(branch, dict) else []
+            rets = [s2 for s2 in stmts(branch) if s2.get("k") == "ret"] if isinstance(branch, dict) else []
+            ok = isinstance(branch, dict) and always_exits(branch) and ("TxValidationResult::TX_CONSENSUS", "bad-txns-spends-conflicting-tx") in inv and \
+                bool(rets) and all(result_kind(r.get("v")) == "INVALID" or match(["bool", False], r.get("v")) for r in rets)
+            ctx.ob("%s/spends-conflicting-rejects@L%s" % (short, st.get("l")), "LADDER", "an ancestor among the conflicts sets Invalid(TX_CONSENSUS, bad-txns-spends-conflicting-tx) "
+                   "and returns a failure result", ok, "%s:%s" % (g.file, st.get("l")), {"invalid_calls": inv})
+        # no pool change before / without it
+        atoms = {"HASCONF": (re.compile(r"\w+\.m_conflicts\.empty\(\)"), False), "SPENDSCONF": re.compile(r"EntriesAndTxidsDisjoint\(.*\)")}
+        eff = sites(g, lambda e: callee(e) in ("MemPoolAccept::FinalizeSubpackage", "MemPoolAccept::SubmitPackage", MP + "ChangeSet::Apply", "LimitMempoolSize"), P)
+        ctx.floor("%s: pool-changing call sites" % short, len(eff), 1)
+        site_implies(ctx, eff, sub, "!HASCONF || !SPENDSCONF", atoms, "%s/commit-past-disjointness" % short,
+                     "the mempool is changed only if the transaction has no conflicts or none of its ancestors is among them")
